@@ -29,9 +29,16 @@ ASSUMPTIONS = [
 LIM = 10**6
 
 
+FLOATS = [0.1, 0.25, 1 / 3, 2.5, 0.7, 1e-5, 3.000001, 1.1, 2 / 7]
+
+
 @st.composite
-def number(draw, positive=True, allow_zero=False):
-    kind = draw(st.sampled_from(["int", "int", "rat", "float"]))
+def number(draw, positive=True, allow_zero=False, weight=False):
+    kind = draw(st.sampled_from(["int", "int", "rat", "float"] + (["exactf"] if weight else [])))
+    if kind == "exactf":
+        # weights only: the Fraction holding a float's exact binary value (== that float, but a
+        # Fraction weight is stored as given while the float is stored as its closest p/q, q <= 10**6)
+        return C.enc(Fraction(draw(st.sampled_from(FLOATS))))
     if kind == "int":
         lo = 0 if allow_zero else 1
         return draw(st.integers(lo, 9))
@@ -41,7 +48,7 @@ def number(draw, positive=True, allow_zero=False):
         return C.enc(Fraction(p, q))
     f = draw(
         st.one_of(
-            st.sampled_from([0.1, 0.25, 1 / 3, 2.5, 0.7, 1e-5, 3.000001, 1.1, 2 / 7]),
+            st.sampled_from(FLOATS),
             st.floats(min_value=1e-5, max_value=50, allow_nan=False, allow_infinity=False),
         )
     )
@@ -70,7 +77,7 @@ def ballot(draw, cands, rankings_pool, scores_pool):
             sc = {k: prev[k] for k in draw(st.permutations(sorted(prev)))}
         scores_pool.append(sc)
         b["s"] = sc
-    b["w"] = draw(number())
+    b["w"] = draw(number(weight=True))
     if draw(st.integers(0, 5)) == 0:
         b["id"] = draw(st.sampled_from(["x1", "x2", "id"]))
     if draw(st.integers(0, 5)) == 0:
